@@ -16,6 +16,13 @@ NOTES = ("Every check = TLA+ specification under spec/ checked by TLC + conforma
          "known_findings.json lists genuine defects (known / fixed).")
 NOT_APPLICABLE = {}
 CHECKS = {
+    "C09": {
+        "level": "model_checking",
+        "technique": "TLA+ spec BoxTree.tla (element-tree builder, declarative WellFormed/Failures, reference generator Raw/IIB/BII with TLC-checked invariant GenWellFormed) model-checked by TLC; every tree built by the real cascade + boxes.BuildFormattingStructure, compared with the reference generator on the block/inline subset, and every real box tree validated as a trace by TLC (BoxTreeTrace.tla)",
+        "text": "TLC enumerates element trees, proves that the reference generator satisfies the clauses, and validates every real box tree against "
+                "WellFormed (block containers, line/inline boxes, table wrapper and parts, flex/grid items, display:none, shared slots).",
+        "note": "<div>-only documents, style attributes; replaced elements' children and pseudo-elements are not in the alphabet.",
+    },
     "C13": {
         "level": "model_checking",
         "technique": "TLA+ spec TableGrid.tla (slot assignment PlaceCell/NextRow/Finish with rowspan clamp and fixed-layout cut; declarative GridConsistent) model-checked by TLC; every table laid out by layout.Layout, slot assignment compared, and the real geometry validated as a trace by TLC against GridConsistent (TableGridTrace.tla)",
